@@ -597,3 +597,21 @@ Definition index_answers (ibytes : bytes) (cids : list bytes) : bool :=
 
 Definition roots_present (roots : list bytes) (bs : list block) : bool :=
   forallb (cid_in (map fst bs)) roots.
+
+(* the block whose section starts at offset o of a payload laid out from pos *)
+Fixpoint block_at (pos : N) (bs : list block) (o : N) : option block :=
+  match bs with
+  | [] => None
+  | b :: t => if o =? pos then Some b else block_at (pos + section_size (fst b) (snd b)) t o
+  end.
+
+(* executable guards of the partial get-block theorems: every candidate offset the index yields for
+   the key is the start of a section (soundness of the index, C03), and -- when the key is present --
+   one of them carries the key's multihash (completeness) *)
+Definition cand_block (hb : bytes) (bs : list block) (o : N) : option block := block_at (blen (ld hb)) bs o.
+Definition cand_matches (hb : bytes) (bs : list block) (key : bytes) (o : N) : bool :=
+  match cand_block hb bs o with Some b => same_mh (fst b) key | None => false end.
+Definition candidates_sound (hb : bytes) (bs : list block) (cands : list N) : bool :=
+  forallb (fun o => match cand_block hb bs o with Some _ => true | None => false end) cands.
+Definition candidates_ok (hb : bytes) (bs : list block) (cands : list N) (key : bytes) : bool :=
+  candidates_sound hb bs cands && existsb (cand_matches hb bs key) cands.
